@@ -26,7 +26,7 @@ TInit == Init /\ l = 1
 Dispatch ==
   \/ Line.a = "Write" /\ Line.arg.item.t \in Tags /\ Write(Line.arg.item)
   \/ Line.a = "Open"  /\ Open(Line.arg.k)
-  \/ Line.a = "Read"  /\ Read(Line.arg.via) /\ Line.arg.t = last'.arg.t /\ Line.arg.n = last'.arg.n
+  \/ Line.a = "Read"  /\ Read(Line.arg.via, Line.arg.dst, Line.arg.pre) /\ Line.arg.t = last'.arg.t /\ Line.arg.n = last'.arg.n
   \/ Line.a = "OpenAll"  /\ OpenAll
   \/ Line.a = "OpenFrac" /\ OpenFrac(Line.arg.pm)
   \/ Line.a = "Probe" /\ Line.arg.t \in PodTags /\ Probe(Line.arg.t)
